@@ -28,7 +28,7 @@ def cases(tier, seed):
             step = 1 << 12
             for a in range(0, n, step):
                 out.append({"kind": "exh", "N": N, "m": m, "a": a, "b": min(n, a + step), "seed": seed})
-    nr = 240 if tier == "quick" else 6000
+    nr = 240 if tier == "quick" else 18000
     for i in range(nr):
         rng = scenario.rng_for(seed, "C09r", i)
         N = int(rng.integers(2, 6))
